@@ -399,10 +399,13 @@ theorem op_ok (f : Nat) (hi : InvokeOK f) (he : EmitOK f) : OpOK (f+1) := by
             simp at h; obtain ⟨h1, _⟩ := h; subst h1; exact g1
   · simp at h; obtain ⟨h1, _⟩ := h; subst h1; exact Good.refl hs
   · split at h
-    · rename_i s1 r hst
-      simp at h; obtain ⟨h1, _⟩ := h; subst h1
-      exact stepSimple_good hs hst
-    · simp at h; obtain ⟨h1, _⟩ := h; subst h1; exact Good.refl hs
+    · -- the mode rule refuses the operation: the state is unchanged
+      simp at h; obtain ⟨h1, _⟩ := h; subst h1; exact Good.refl hs
+    · split at h
+      · rename_i s1 r hst
+        simp at h; obtain ⟨h1, _⟩ := h; subst h1
+        exact stepSimple_good hs hst
+      · simp at h; obtain ⟨h1, _⟩ := h; subst h1; exact Good.refl hs
 
 
 theorem mem_skel {im : Impl} {m : Nat} {b : Bool} (h : (m, b) ∈ skel im) :
